@@ -9,7 +9,7 @@ from gen import families, glyphs, ufo  # noqa: E402
 
 # properties whose oracles understand Glyphs-rendered sources (second front end): every third source is rendered as
 # a Glyphs 3 file when the model can be expressed there (identity axis maps, diagonal transforms, shared kern groups)
-GLYPHS_FORMAT_PROPS = {"C03", "C04", "C06", "C09", "C10", "C05", "C17", "C01", "C02", "C14", "C12"}
+GLYPHS_FORMAT_PROPS = {"C03", "C04", "C06", "C09", "C10", "C05", "C17", "C01", "C02", "C14", "C12", "C16"}
 
 
 def sources_for(prop, chk, n, fams=None, post=None):
